@@ -89,7 +89,7 @@ fn other_verdict(be: Backend, r: &Ref, ty: &str, b: &[u8], rust_value: Option<&V
                 (format!("improper-error:{class}"), None, false)
             }
         }
-        RDec::Crash(m) => (format!("crash:{}", m.chars().take(60).collect::<String>()), None, false),
+        RDec::Crash(m) => (if crash_kind(m) == "crash" { format!("crash:{}", m.chars().take(60).collect::<String>()) } else { crash_kind(m) }, None, false),
     }
 }
 
@@ -187,7 +187,7 @@ fn pair_leg<T: Target>(name: &str, be: Backend, seed: u64, tier: &str, descs: &[
                             let (vr, jr) = match &dr {
                                 RDec::Ok { value, .. } => ("accept".to_string(), Some(value.clone())),
                                 RDec::Err { .. } => ("reject".to_string(), None),
-                                RDec::Crash(m) => (format!("crash:{}", m.chars().take(60).collect::<String>()), None),
+                                RDec::Crash(m) => (if crash_kind(m) == "crash" { format!("crash:{}", m.chars().take(60).collect::<String>()) } else { crash_kind(m) }, None),
                             };
                             let (vo, jo, consumed) = other_verdict(be, &r, &ty, b, jr.as_ref(), &dother);
                             let mut problems: Vec<String> = vec![];
